@@ -292,7 +292,8 @@ Definition wiring := list (dt * origin).     (* one entry per (topic, sender) *)
 
 Definition loader_wires (c : components) : wiring := map (fun d => (d, OLoader d)) (k_loaders c).
 
-(* ThreadedMailboxProcessor.__init__ on the pinned tree: the divider of a multi-output plugin gets the
+(* ThreadedMailboxProcessor.__init__ BEFORE /repo commit e1cd0b8 (defect D5; kept as documentation and as the
+   alternative the harness tests the code against): the divider of a multi-output plugin gets the
    mailboxes of ALL its outputs ( mailboxes={k: self.mailboxes[k] for k in p.provides} ) and forwards every
    entry of the result dict *)
 Definition wiring_pinned (g : graph) (c : components) : wiring :=
@@ -302,7 +303,9 @@ Definition wiring_pinned (g : graph) (c : components) : wiring :=
                                     else [(d, OPlugin j)]
                      end) (running g c).
 
-(* the repaired wiring: the divider only feeds outputs that are not loader-fed *)
+(* ThreadedMailboxProcessor.__init__ since e1cd0b8 (the expected wiring):
+   divided = tuple(k for k in p.provides if k not in components.loaders); the divider only feeds those,
+   and divide_outputs sends exactly `outputs` *)
 Definition wiring_fixed (g : graph) (c : components) : wiring :=
   loader_wires c ++
   flat_map (fun x => match x with
